@@ -34,7 +34,7 @@ LLBUILD = os.path.join(common.BIN["rel"], "llbuild")
 
 
 def budget(tier):
-    return 8000 if tier == "quick" else 200000
+    return 6000 if tier == "quick" else 200000
 
 
 @st.composite
